@@ -759,6 +759,19 @@ reprocess:
 
 #define MINI_FORMAT_STR_LEN 20
 
+/* account for the result of an snprintf() into &string[location]:
+ * never let location leave the buffer */
+#define DS_ADVANCE(_n_) do {					\
+	if ((_n_) > 0) {						\
+		if ((size_t)(_n_) >= str_len - location) {		\
+			location = str_len - 1;				\
+		} else {						\
+			location += (_n_);				\
+		}							\
+	}								\
+	string[location] = '\0';					\
+} while (0)
+
 size_t
 qb_vsnprintf_deserialize(char *string, size_t str_len, const char *buf)
 {
@@ -773,6 +786,10 @@ qb_vsnprintf_deserialize(char *string, size_t str_len, const char *buf)
 	int type_longlong = QB_FALSE;
 	int len;
 
+	if (str_len == 0) {
+		return 0;
+	}
+	/* invariant: location < str_len and string[location] == '\0' */
 	string[0] = '\0';
 	format = (char *)buf;
 	for (;;) {
@@ -783,9 +800,10 @@ qb_vsnprintf_deserialize(char *string, size_t str_len, const char *buf)
 			return my_strlcat(string, format, str_len) + 1;
 		}
 		/* copy from current to the next % */
-		len = p - format;
+		len = QB_MIN((size_t)(p - format), str_len - 1 - location);
 		memcpy(&string[location], format, len);
 		location += len;
+		string[location] = '\0';
 		format = p;
 
 		/* start building up the format for snprintf */
@@ -811,7 +829,9 @@ reprocess:
 		case '7': /* field width, ignore */
 		case '8': /* field width, ignore */
 		case '9': /* field width, ignore */
-			fmt[fmt_pos++] = *format;
+			if (fmt_pos < MINI_FORMAT_STR_LEN - 4) {
+				fmt[fmt_pos++] = *format;
+			}
 			format++;
 			goto reprocess;
 
@@ -819,9 +839,14 @@ reprocess:
 			int arg_int;
 			memcpy(&arg_int, &buf[data_pos], sizeof(int));
 			data_pos += sizeof(int);
-			fmt_pos += snprintf(&fmt[fmt_pos],
-					   MINI_FORMAT_STR_LEN - fmt_pos,
-					   "%d", arg_int);
+			len = snprintf(&fmt[fmt_pos],
+				       MINI_FORMAT_STR_LEN - 4 - fmt_pos,
+				       "%d", arg_int);
+			if (len > 0 && len < MINI_FORMAT_STR_LEN - 4 - fmt_pos) {
+				fmt_pos += len;
+			} else {
+				fmt[fmt_pos] = '\0';
+			}
 			format++;
 			goto reprocess;
 		}
@@ -875,9 +900,10 @@ reprocess:
 				fmt[fmt_pos++] = *format;
 				fmt[fmt_pos++] = '\0';
 				memcpy(&arg_int, &buf[data_pos], sizeof(long int));
-				location += snprintf(&string[location],
-						     str_len - location,
-						     fmt, arg_int);
+				len = snprintf(&string[location],
+					       str_len - location,
+					       fmt, arg_int);
+				DS_ADVANCE(len);
 				data_pos += sizeof(long int);
 				format++;
 				break;
@@ -887,9 +913,10 @@ reprocess:
 				fmt[fmt_pos++] = *format;
 				fmt[fmt_pos++] = '\0';
 				memcpy(&arg_int, &buf[data_pos], sizeof(long long int));
-				location += snprintf(&string[location],
-						     str_len - location,
-						     fmt, arg_int);
+				len = snprintf(&string[location],
+					       str_len - location,
+					       fmt, arg_int);
+				DS_ADVANCE(len);
 				data_pos += sizeof(long long int);
 				format++;
 				break;
@@ -899,9 +926,10 @@ reprocess:
 				fmt[fmt_pos++] = *format;
 				fmt[fmt_pos++] = '\0';
 				memcpy(&arg_int, &buf[data_pos], sizeof(int));
-				location += snprintf(&string[location],
-						     str_len - location,
-						     fmt, arg_int);
+				len = snprintf(&string[location],
+					       str_len - location,
+					       fmt, arg_int);
+				DS_ADVANCE(len);
 				data_pos += sizeof(int);
 				format++;
 				break;
@@ -920,9 +948,10 @@ reprocess:
 			fmt[fmt_pos++] = *format;
 			fmt[fmt_pos++] = '\0';
 			memcpy(&arg_double, &buf[data_pos], sizeof(double));
-			location += snprintf(&string[location],
-					     str_len - location,
-					     fmt, arg_double);
+			len = snprintf(&string[location],
+					       str_len - location,
+					       fmt, arg_double);
+				DS_ADVANCE(len);
 			data_pos += sizeof(double);
 			format++;
 			break;
@@ -934,9 +963,10 @@ reprocess:
 			fmt[fmt_pos++] = *format;
 			fmt[fmt_pos++] = '\0';
 			arg_char = (unsigned char*)&buf[data_pos];
-			location += snprintf(&string[location],
-					     str_len - location,
-					     fmt, *arg_char);
+			len = snprintf(&string[location],
+					       str_len - location,
+					       fmt, *arg_char);
+				DS_ADVANCE(len);
 			data_pos += sizeof(unsigned char);
 			format++;
 			break;
@@ -948,7 +978,7 @@ reprocess:
 			len = snprintf(&string[location],
 				       str_len - location,
 				       fmt, &buf[data_pos]);
-			location += len;
+			DS_ADVANCE(len);
 			/* don't use len as there might be a len modifier */
 			data_pos += strlen(&buf[data_pos]) + 1;
 			format++;
@@ -961,15 +991,19 @@ reprocess:
 			       sizeof(ptrdiff_t));
 			fmt[fmt_pos++] = *format;
 			fmt[fmt_pos++] = '\0';
-			location += snprintf(&string[location],
-					     str_len - location,
-					     fmt, pt);
+			len = snprintf(&string[location],
+					       str_len - location,
+					       fmt, pt);
+				DS_ADVANCE(len);
 			data_pos += sizeof(void*);
 			format++;
 			break;
 			}
 		case '%':
-			string[location++] = '%';
+			if (location < str_len - 1) {
+				string[location++] = '%';
+				string[location] = '\0';
+			}
 			format++;
 			break;
 
